@@ -845,7 +845,7 @@ namespace
                                       V("neighbour-set-differs", "node " + std::to_string(i));
                                       break;
                                   }
-                                  if (std::fabs(got[k].second - want[k].second) > 1e-12 * (1 + want[k].second))
+                                  if (!(std::fabs(got[k].second - want[k].second) <= 1e-12 * (1 + want[k].second)))
                                   {
                                       V("distance-differs", "node " + std::to_string(i) + " neighbour "
                                                                 + std::to_string(got[k].first) + " " + hexd(got[k].second)
@@ -870,7 +870,7 @@ namespace
                               else
                               {
                                   total += a;
-                                  if (std::fabs(a - mm.node_area[i]) > 1e-11 * (1 + std::fabs(mm.node_area[i])))
+                                  if (!(std::fabs(a - mm.node_area[i]) <= 1e-11 * (1 + std::fabs(mm.node_area[i]))))
                                       V("node-area-differs", "node " + std::to_string(i) + " area " + hexd(a)
                                                                  + " circumcentric share " + hexd(mm.node_area[i]));
                               }
@@ -879,7 +879,7 @@ namespace
                           for (std::size_t i = 0; i < 9; ++i)
                               if (all(i) != grid.nodes_areas(i))
                                   V("area-accessors-disagree", "node " + std::to_string(i));
-                          if (std::fabs(total - mm.total_area) > 1e-11 * (1 + mm.total_area))
+                          if (!(std::fabs(total - mm.total_area) <= 1e-11 * (1 + mm.total_area)))
                               V("areas-do-not-sum-to-triangle-area",
                                 "sum " + hexd(total) + " triangles " + hexd(mm.total_area));
                           Hasher h;
